@@ -162,7 +162,13 @@ def check_case(shard, rig, u, addr, b, regs, patches, seed, rp):
             shard.violation('%s raised %r executing %s' % (k, e, bytes(b[:4]).hex()), dict(rp, kind=k))
             return False
     shard.inc('monitor:steps_compared', len(kinds))
-    bitmask = 0xD7 if (b[0] == 0xCB and b[1] & 0xC7 == 0x46) else 0xFF     # BIT n,(HL): bits 5/3 come from MEMPTR
+    # BIT n,(HL): bits 5/3 come from MEMPTR, which only the contended pair models. Decide on the bytes actually in
+    # memory (on 128K a PC in ROM executes the ROM's bytes, not the generated ones).
+    m0 = rig.ms[kinds[0]].sim.memory
+    a0, a1 = (m0[addr], m0[(addr + 1) & 0xFFFF]) if rig.is128 and addr < 0x4000 else (b[0], b[1])
+    if rig.is128 and addr == 0x3FFF:
+        a1 = b[1]
+    bitmask = 0xD7 if (a0 == 0xCB and a1 & 0xC7 == 0x46) else 0xFF
     for plain, cont in (('py', 'pycmio'), ('c', 'ccmio')):
         if plain not in res or cont not in res:
             continue
